@@ -75,26 +75,36 @@ WHAT = {
 
 
 def main():
-    unchanged = {}
+    # before the fix commit d5502764 (runs of round 3 on the then-unchanged tree)
+    before = {}
     for n in ("violations_unchanged_tree.json", "violations_quick_unchanged_tree.json"):
         for x in load(n):
-            unchanged.setdefault(x["key"], x["what"])
-    after = {x["key"] for n in ("violations_with_proposed_fix.json", "violations_quick_with_proposed_fix.json") for x in load(n)}
+            before.setdefault(x["key"], x["what"])
+    # current tree: quick run on /repo after d5502764, plus the thorough run of round 3 on the scratch tree carrying the same patch
+    now = {}
+    for n in ("violations_quick_after_d5502764.json", "violations_with_proposed_fix.json", "violations_quick_with_proposed_fix.json"):
+        for x in load(n):
+            now.setdefault(x["key"], x["what"])
     groups = {}
-    for k, w in sorted(unchanged.items()):
-        rc = root_cause(k, w)
-        groups.setdefault((rc, k not in after), []).append(k)
-    if any(rc == "UNCLASSIFIED" for rc, _ in groups):
-        raise SystemExit("unclassified: %s" % [v for (rc, _), v in groups.items() if rc == "UNCLASSIFIED"])
+    for k, w in sorted(now.items()):
+        groups.setdefault(root_cause(k, w), []).append(k)
+    if "UNCLASSIFIED" in groups:
+        raise SystemExit("unclassified: %s" % groups["UNCLASSIFIED"])
     findings = []
-    for (rc, fixed), keys in sorted(groups.items()):
+    for rc, keys in sorted(groups.items()):
         wit, what = WHAT[rc]
-        f = {"property": "C26", "name": rc + ("" if not fixed else ":repaired-by-proposed-fix"), "keys": keys, "witness": wit, "what": what}
-        if fixed:
-            f["proposed_fix"] = "notes/proposed-fixes/C26-integer-wrappers.patch"
-        findings.append(f)
-        print(f["name"], len(keys))
-    json.dump({"findings": findings, "fixed": []}, open(os.path.join(V, "known_findings.d", "C26.json"), "w"), indent=1, ensure_ascii=False)
+        findings.append({"property": "C26", "name": rc, "keys": keys, "witness": wit, "what": what})
+        print(rc, len(keys))
+    repaired = {}
+    for k, w in sorted(before.items()):
+        if k not in now:
+            repaired.setdefault(root_cause(k, w), []).append(k)
+    fixed = []
+    for rc, keys in sorted(repaired.items()):
+        wit, what = WHAT[rc]
+        fixed.append("fixed: property=C26 d5502764 %s (%d keys, e.g. %s): %s; witness %s" % (rc, len(keys), ", ".join(keys[:3]), what.split(";")[0][:160], wit))
+        print("fixed", rc, len(keys))
+    json.dump({"findings": findings, "fixed": fixed}, open(os.path.join(V, "known_findings.d", "C26.json"), "w"), indent=1, ensure_ascii=False)
 
 
 if __name__ == "__main__":
